@@ -585,7 +585,12 @@ func (e *Engine) replaySource(blk *Block, fn *ssa.Function, o *Obligation, vb *v
 		fmt.Fprintf(&b, "\t\tif !%s(%s) {\n\t\t\tverdict = \"postcondition violated: %s\"\n\t\t}\n", cl.SynName, a, strings.ReplaceAll(cl.Text, "\"", "'"))
 	}
 	b.WriteString("\t\tdone <- verdict\n\t}()\n")
-	b.WriteString("\tselect {\n\tcase v := <-done:\n\t\tif v == \"ok\" {\n\t\t\tfmt.Println(\"GOVC-REPLAY: no violation observed on the model input\")\n\t\t} else {\n\t\t\tfmt.Println(\"GOVC-REPLAY: CONFIRMED \" + v)\n\t\t}\n\tcase <-time.After(5 * time.Second):\n\t\tfmt.Println(\"GOVC-REPLAY: CONFIRMED the call does not terminate within 5s\")\n\t\tos.Exit(0)\n\t}\n}\n")
+	safety := o.Kind == "bounds" || o.Kind == "nil" || o.Kind == "assert-type" || o.Kind == "div0" || o.Kind == "panic-unreachable" || o.Kind == "overflow"
+	b.WriteString("\tselect {\n\tcase v := <-done:\n\t\tswitch {\n\t\tcase v == \"ok\":\n\t\t\tfmt.Println(\"GOVC-REPLAY: no violation observed on the model input\")\n")
+	if !safety {
+		b.WriteString("\t\tcase len(v) > 6 && v[:6] == \"panic:\":\n\t\t\tfmt.Println(\"GOVC-REPLAY: inconclusive, the rebuilt input made the call panic (\" + v + \")\")\n")
+	}
+	b.WriteString("\t\tdefault:\n\t\t\tfmt.Println(\"GOVC-REPLAY: CONFIRMED \" + v)\n\t\t}\n\tcase <-time.After(5 * time.Second):\n\t\tfmt.Println(\"GOVC-REPLAY: CONFIRMED the call does not terminate within 5s\")\n\t\tos.Exit(0)\n\t}\n}\n")
 	return b.String(), nil
 }
 
